@@ -1144,6 +1144,91 @@ theorem C06_truncGauss_moments (mu sigma : ℝ) (hs : 0 < sigma) :
   rw [Real.sq_sqrt (by convert hnn using 1; ring)]
   ring
 
+/-! ## multi-dimensional truncated Gaussian: every dimension keeps its own law -/
+
+/-- C06: entry `(r, d)` of an elementary Gaussian / log-normal / truncated-Gaussian / pooled sample
+    depends on the parameter table only through the parameters of ITS OWN dimension `d`: changing the
+    location or scale of another dimension (e.g. moving it far away from the truncation point) leaves
+    the entry as it is -/
+theorem C06_entry_dim_local (k : Kind) (hk : k ≠ .hetero) (nDim : Nat) (th th' : Nat → Nat → ℝ)
+    (fs : List (Ful ℝ)) (q r d : Nat) (h0 : th 0 d = th' 0 d) (h1 : th 1 d = th' 1 d) :
+    elemEntry k nDim th fs q r d = elemEntry k nDim th' fs q r d := by
+  rcases k with c | c | _ | _ | _
+  · cases c <;> simp [elemEntry, h0, h1]
+  · cases c <;> simp [elemEntry, h0, h1]
+  · simp [elemEntry, h0, h1]
+  · simp [elemEntry, h0]
+  · exact absurd rfl hk
+
+/-- C06 (supports, TruncatedGaussianModel of ANY dimension): whenever the primitive of position
+    `(r, d)` respects the truncation point requested for dimension `d` (`C06_truncGauss_request`),
+    entry `(r, d)` is `≥ 0` — for every dimension, whatever the parameters of the other dimensions -/
+theorem C06_truncGauss_support_all_dims (nDim : Nat) (th : Nat → Nat → ℝ) (fs : List (Ful ℝ))
+    (q r d : Nat) (hs : 0 < th 1 d) (ht : -(th 0 d) / th 1 d ≤ flAt fs q (pos nDim r d)) :
+    0 ≤ elemEntry .trunc nDim th fs q r d := by
+  rw [div_le_iff₀ hs] at ht
+  simp only [elemEntry, pos] at ht ⊢
+  nlinarith
+
+theorem cond_stdGaussian_Ici_isProb (a : ℝ) :
+    IsProbabilityMeasure (cond (gaussianReal 0 1) (Set.Ici a)) := by
+  apply cond_isProbabilityMeasure
+  rw [stdGaussian_Ici]
+  have := one_sub_Phi_pos a
+  simp only [ne_eq, ENNReal.ofReal_eq_zero, not_le]
+  exact this
+
+/-- C06 (TruncatedGaussianModel of ANY dimension, all samples): with independent ideal `truncnorm`
+    primitives — position `(r, d)` a standard normal conditioned on `[-μ_d/σ_d, ∞)`, the truncation
+    point of ITS dimension — all entries of the sample are mutually independent and entry `(r, d)`
+    is `N(μ_d, σ_d²)` conditioned on `[0, ∞)`, the density the log-likelihood scores for dimension `d`
+    (`C06_truncGauss_density`, `C06_truncGauss_scored`); a dimension for which the truncation is
+    numerically irrelevant does not change the law of a dimension for which it matters -/
+theorem C06_truncGauss_block_law {Ω : Type} [MeasurableSpace Ω] {P : Measure Ω} (T : ℕ → Ω → ℝ)
+    (hind : iIndepFun T P) (nS nDim : Nat) (th : Nat → Nat → ℝ) (hs : ∀ d, d < nDim → 0 < th 1 d)
+    (hlaw : ∀ (r : Fin nS) (d : Fin nDim), P.map (T (pos nDim r d))
+      = cond (gaussianReal 0 1) (Set.Ici (-(th 0 d) / th 1 d)))
+    (q : Nat) (fs : Ω → List (Ful ℝ)) (hfs : ∀ ω i, flAt (fs ω) q i = T i ω) :
+    iIndepFun (fun (rd : Fin nS × Fin nDim) ω => elemEntry .trunc nDim th (fs ω) q rd.1 rd.2) P
+    ∧ ∀ rd : Fin nS × Fin nDim,
+        P.map (fun ω => elemEntry .trunc nDim th (fs ω) q rd.1 rd.2)
+          = cond (gaussianReal (th 0 rd.2) (sqv (th 1 rd.2))) (Set.Ici 0) := by
+  have hk : Kind.trunc ≠ .pooled ∧ Kind.trunc ≠ .hetero := ⟨by simp, by simp⟩
+  constructor
+  · have h1 := hind.precomp (C06_em_positions nS nDim).1
+    have h2 := h1.comp (fun rd : Fin nS × Fin nDim => popOne .trunc (th 0 rd.2) (th 1 rd.2))
+      (fun rd => measurable_popOne _ _ _)
+    refine h2.congr ?_
+    intro rd
+    refine Filter.Eventually.of_forall fun ω => ?_
+    simp [C06_elem_entry .trunc hk, hfs]
+  · intro rd
+    have heq : (fun ω => elemEntry .trunc nDim th (fs ω) q rd.1 rd.2)
+        = popOne .trunc (th 0 rd.2) (th 1 rd.2) ∘ T (pos nDim rd.1 rd.2) := by
+      funext ω; simp [C06_elem_entry .trunc hk, hfs]
+    have hp := cond_stdGaussian_Ici_isProb (-(th 0 rd.2) / th 1 rd.2)
+    rw [heq, map_comp_of_law (hlaw rd.1 rd.2) (measurable_popOne _ _ _),
+      C06_truncGauss_law _ _ (hs rd.2 rd.2.2)]
+
+/-- C06: a sampler that draws a dimension of a truncated Gaussian model from the UNTRUNCATED
+    `N(μ, σ²)` (whatever the other dimensions look like) does not draw from the scored density: the
+    plain Gaussian gives positive probability to `(-∞, 0)`, the scored law gives none — for every
+    `μ` and every `σ > 0`, also when `μ` is many `σ` away from zero -/
+theorem C06_truncGauss_untruncated_counterexample (mu sigma : ℝ) (hs : 0 < sigma) :
+    0 < gaussianReal mu (sqv sigma) (Set.Iio 0)
+    ∧ cond (gaussianReal mu (sqv sigma)) (Set.Ici 0) (Set.Iio 0) = 0 := by
+  have hv := sqv_ne_zero hs.ne'
+  constructor
+  · by_contra h
+    have h0 : gaussianReal mu (sqv sigma) (Set.Iio 0) = 0 := le_antisymm (not_lt.mp h) bot_le
+    have := gaussianReal_absolutelyContinuous' mu hv h0
+    simp [Real.volume_Iio] at this
+  · rw [cond_apply measurableSet_Ici]
+    have : Set.Ici (0:ℝ) ∩ Set.Iio 0 = ∅ := by
+      ext x; simp only [Set.mem_inter_iff, Set.mem_Ici, Set.mem_Iio, Set.mem_empty_iff_false,
+        iff_false]; intro h; linarith [h.1, h.2]
+    simp [this]
+
 /-! ## non-vacuity -/
 
 /-- a concrete Gaussian error-model sample array: 2 time points, 3 samples, no error -/
@@ -1155,5 +1240,15 @@ example : ∃ rows, emSample .gauss [(1:ℝ)] [1, 2] (some 3) (fun i => (i : ℝ
 example : (gaussianReal 0 1).map (gaussDraw 2 1) = gaussianReal 1 (sqv 2) := C06_gaussian_law 1 2
 
 example : (1:ℝ) * (1/2) * 2 ≠ 0 := by norm_num
+
+/-- the hypotheses of `C06_truncGauss_support_all_dims` are satisfiable in a model with one dimension
+    far from the truncation (`μ = 50, σ = 2`) next to one at the truncation (`μ = 1/2, σ = 1`): the
+    primitive `-2/5 ≥ -1/2` of the second dimension gives the entry `1/10 ≥ 0` -/
+example : 0 ≤ elemEntry .trunc 2
+    (fun p d => if p = 0 then (if d = 0 then (50:ℝ) else 1/2) else (if d = 0 then 2 else 1))
+    [.flts [0, -2/5]] 0 0 1 :=
+  C06_truncGauss_support_all_dims _ _ _ _ _ _ (by norm_num)
+    (by simp [flAt, Ful.flt, pos]; norm_num)
+
 
 end ChiModel
